@@ -69,6 +69,14 @@ def write(prop, tier, seed, sel, results, metas, overlay_info, wall, violations,
         }
         if r.get("replay"):
             ent["replay"] = r["replay"]
+        if r.get("extraction"):
+            # every transformation the extractor applied to the real function text
+            ent["extraction"] = [
+                {"file": e["file"], "fn": e["fn"], "line": e["line"],
+                 "substitutions": e.get("substitutions", []),
+                 "ghost_injections": [i["where"] for i in e.get("injections", [])],
+                 "lost_hint_anchors": e.get("lost_anchors", [])}
+                for e in r["extraction"]]
         units_out.append(ent)
         if r.get("solver_s"):
             solver_s += float(r["solver_s"])
